@@ -25,7 +25,23 @@ def run_reg(reqs, timeout=1500):
     rc, resps, err = hc.run_lines([os.path.join(vlib.BIN, "vh_reg")], reqs, timeout=timeout)
     if len(resps) != len(reqs):
         raise RuntimeError("vh_reg died after %d of %d schedules: %s" % (len(resps), len(reqs), err[-800:]))
+    # a schedule that looked hung is run again, alone and with five times the wait bounds, before it is believed:
+    # the harness's bounds are wall-clock (2 s for a goroutine to reach its next yield point) and a loaded machine
+    # can miss them; a real hang is not a matter of patience and shows again
+    global HANGS_NOT_REPRODUCED
+    for i, r in enumerate(resps):
+        if r.get("hang"):
+            env = dict(os.environ, VH_PATIENCE="5")
+            for _ in range(2):
+                rc2, again, _ = hc.run_lines([os.path.join(vlib.BIN, "vh_reg")], [reqs[i]], timeout=300, env=env)
+                if len(again) == 1 and not again[0].get("hang"):
+                    resps[i] = again[0]
+                    HANGS_NOT_REPRODUCED += 1
+                    break
     return resps
+
+
+HANGS_NOT_REPRODUCED = 0
 
 
 def tok_case(q, r):
